@@ -116,6 +116,14 @@ type c06T16 struct {
 	A map[string]c06TP `@Ident`
 }
 
+type c06T17 struct { // slice type that is its own element type
+	A c19SelfSlice `@Ident*`
+}
+type c06T18 struct { // pointer type that points to itself
+	A c19SelfPtr `@Ident?`
+	B string     `@Int`
+}
+
 func c06B[T any]() func() (gram.Built, error) {
 	return func() (gram.Built, error) {
 		p, err := participle.Build[T]()
@@ -146,6 +154,8 @@ var c06TargetCases = []struct {
 	{"slice of slices of TextUnmarshaler", c06B[c06T14]()},
 	{"TextUnmarshaler slice filled across a repetition and an optional pointer", c06B[c06T15]()},
 	{"map of TextUnmarshaler", c06B[c06T16]()},
+	{"slice type whose element type is itself", c06B[c06T17]()},
+	{"pointer type that points to itself", c06B[c06T18]()},
 }
 
 func c06Targets(c *mon.Child) {
@@ -300,5 +310,55 @@ func c06ActionErrors(c *mon.Child) {
 			c.Nontrivial("act:" + in)
 		}
 		c.End(key)
+	}
+}
+
+// c06EmptyG: lexers with a rule that can match the empty string (a lexer-elided
+// `\s*`, an upper-case `[0-9]*`), placed last: on a character nothing matches
+// the lexer must stop with a located error, not spin or panic.
+type c06EmptyG struct {
+	Items []string `( @Ident | @Punct | @Num )*`
+}
+
+func c06EmptyMatches(c *mon.Child) {
+	defs := []struct {
+		desc  string
+		rules []lexer.SimpleRule
+	}{
+		{"elided rule `\\s*` last", []lexer.SimpleRule{{Name: "Ident", Pattern: `[a-z]+`}, {Name: "Punct", Pattern: `[;,]`}, {Name: "Num", Pattern: `[0-9]+`}, {Name: "ws", Pattern: `\s*`}}},
+		{"elided rule `\\s*` first", []lexer.SimpleRule{{Name: "ws", Pattern: `\s*`}, {Name: "Ident", Pattern: `[a-z]+`}, {Name: "Punct", Pattern: `[;,]`}, {Name: "Num", Pattern: `[0-9]+`}}},
+		{"ordinary rule `[0-9]*` last", []lexer.SimpleRule{{Name: "Ident", Pattern: `[a-z]+`}, {Name: "Punct", Pattern: `[;,]`}, {Name: "ws", Pattern: `\s+`}, {Name: "Num", Pattern: `[0-9]*`}}},
+		{"elided rule `(?:#[^\\n]*)?` in the middle", []lexer.SimpleRule{{Name: "Ident", Pattern: `[a-z]+`}, {Name: "comment", Pattern: `(?:#[^\n]*)?`}, {Name: "Punct", Pattern: `[;,]`}, {Name: "Num", Pattern: `[0-9]+`}, {Name: "ws", Pattern: `\s+`}}},
+	}
+	pieces := []string{"a", "bc", ";", ",", "7", " ", "\n", "$", "é", "# c\n", "A"}
+	r := c.RNG("emptymatch")
+	for di, d := range defs {
+		def, err := lexer.NewSimple(d.rules)
+		if err != nil {
+			c.Feature("definitions_with_empty_matching_rule_rejected_by_the_constructor")
+			continue
+		}
+		p, err := participle.Build[c06EmptyG](participle.Lexer(def))
+		if err != nil {
+			c.Feature("definitions_with_empty_matching_rule_rejected_by_Build")
+			continue
+		}
+		for i := 0; i < c.N(150, 1500); i++ {
+			key := fmt.Sprintf("empty%d_%d", di, i)
+			if !c.Want(key) {
+				continue
+			}
+			var in string
+			for k := r.Range(1, 7); k > 0; k-- {
+				in += pieces[r.Intn(len(pieces))]
+			}
+			c.Begin(key, fmt.Sprintf("lexer with %s <- %q", d.desc, in))
+			c06One(c, key, gram.WrapParser(p), "grammar over a lexer with "+d.desc, in, "e.txt", false, func() interface{} { return map[string]interface{}{"lexer": d.desc, "input": in} })
+			if strings.ContainsAny(in, "$éA") {
+				c.Nontrivial("empty:" + d.desc + in)
+				c.Feature("inputs_with_a_character_only_an_empty_match_can_follow")
+			}
+			c.End(key)
+		}
 	}
 }
